@@ -92,6 +92,49 @@ def intern_all(objs):
     return conv
 
 
+def through_contexts(ctx, rng):
+    """the same negotiation as the callers run it: the request's language list handed to a main context (`fetch_locale`) and to
+    `resolve_locale_with_options` (`get_accepted_locale`) with no cookie — harness ctx_h, judged by C15's evaluation (specification
+    `Langid.Spec.acceptable` on the chosen locale)"""
+    from . import c15
+    st = c15.setup(ctx)
+    if st is None:
+        return
+    binr, names, avail, table, idx, inter = st
+    langs = sorted({n.split("-")[0] for n in names})
+    uni = list(names) + langs + [f"{la}-{r}" for la in langs for r in ("CH", "AT", "GB", "BE", "FR", "MX")] + ["es", "es-MX", "xx", "it-IT", "*"]
+    headers = []
+    for _ in range(ctx.budget(700, 12000)):
+        k = rng.weighted([(3, 1), (5, 2), (5, 3), (2, 4)])
+        tags = [rng.pick(uni) for _ in range(k)]
+        q, parts = 1.0, []
+        for t in tags:
+            parts.append(t if q == 1.0 and rng.chance(1, 2) else f"{t};q={q:.1f}")
+            if rng.chance(2, 3):
+                q = max(0.1, q - 0.1)
+        headers.append(rng.pick([", ", ","]).join(parts))
+    # the shapes the two callers could get wrong on their own: an earlier entry with only a less specific match before an entry spelled like a
+    # locale name; an entry matching the default locale before one matching another locale
+    headers += ["fr-CH, en;q=0.5", "de-AT, fr, en", "es-MX, de-CH, fr", "en, fr;q=0.5", "en-GB,en;q=0.9,fr;q=0.8", "es, en-US, de", "en-US, fr", "xx, en, de"]
+    need = sorted({t for h in headers for t in set(c15.leptos_use_entries(h)) | {e.strip(" \t\n\x0c\r") for e in c15.leptos_use_entries(h)} | set(c15.rfc_entries(h))} - set(table))
+    if need:
+        (parsed,), _ = run_lines(binr, [{"op": "parse_tags", "tags": need}])
+        for t, pp in zip(need, parsed["parsed"]):
+            table[t] = inter.conv(pp)
+    cases = [{"kind": kind, "cookie_header": None, "enable_cookie": True, "cookie_name": None, "accept_language": h, "parent": None, "initial": None,
+              "_cookie": "absent", "_name": "default-name"} for h in headers for kind in ("root", "fn")]
+    for (c, r, m, spec_bad, model_bad) in c15.evaluate(ctx, binr, names, avail, table, idx, cases):
+        ctx.seen({"through_context": c["kind"], "accept_language": c["accept_language"]}, nontrivial=True)
+        ctx.count("through_context:" + c["kind"])
+        if spec_bad:
+            report_violation(ctx, "negotiation:through-context", {
+                "case": c15.strip_meta(c), "chosen": r["locale"], "expected_by_spec": names[m["spec"]], "accepted_languages_seen": r["accepted_seen"],
+                "why": "the initial locale of a context without cookie is the negotiated one: order of preference, exactness, support",
+                "harness": "ctx_h resolve (" + ("init_i18n_context" if c["kind"] == "root" else "resolve_locale_with_options") + ")"})
+        elif model_bad and not any(b["name"] == "R/resolve-through-context:" + model_bad for b in ctx.broken):
+            ctx.broken.append({"kind": "correspondence", "name": "R/resolve-through-context:" + model_bad, "detail": {"case": c15.strip_meta(c), "impl": r, "model": m}})
+
+
 def run(ctx):
     proofs_ok = lean_check(ctx, "I18nVerif.Theorems.C12", "C12_")
     binr = cargo_build(ctx, "runtime_h")
@@ -233,5 +276,6 @@ def run(ctx):
     ctx.extra["impl_vs_model_mismatches"] = mism
     ctx.assumptions += ["ICU4X LanguageIdentifier parsing is an oracle (the harness sends parsed subtags)",
                         "subtags compared case-insensitively after ICU canonicalisation"]
+    through_contexts(ctx, rng)
     finish_broken(ctx, f"{len(cases)} negotiation cases, impl vs spec on each")
     write_evidence(ctx, RULE)
